@@ -38,7 +38,18 @@ class World(object):
 
     def __init__(self, ctx, machine=None, faults=0,
                  kinds=("lose_req", "lose_rep", "dup", "retry", "fatal"),
-                 multi_recv=True, reorder=True):
+                 multi_recv=True, reorder=True, prompt=False, timed=True,
+                 delays=None):
+        # delays: how many times select may idle although a reply is in
+        # flight (None = unlimited; each such delay forces a retransmission)
+        self.delays = delays
+        # timed=False: the clock is concrete (it advances only when select
+        # idles, by its timeout + 1): for properties whose subject is not
+        # timing, only the network's choices are explored
+        self.timed = timed
+        # prompt: a deterministic, fault-free network -- every reply arrives
+        # at once and in order (used where the network is not the subject)
+        self.prompt = prompt
         self.ctx = ctx
         self.machine = machine or ack_machine
         self.faults = faults
@@ -56,7 +67,8 @@ class World(object):
 
     # -- clock ---------------------------------------------------------
     def time(self):
-        self.now = self.now + self.ctx.real("dt", 0)
+        if not self.prompt and self.timed:
+            self.now = self.now + self.ctx.real("dt", 0)
         return self.now
 
     def sleep(self, seconds):
@@ -104,12 +116,29 @@ class World(object):
     def select(self, r, w, x, timeout=None):
         self.selects += 1
         n = len(self.in_flight)
+        if self.prompt:
+            if n:
+                self.ready = [self.in_flight.pop(0)]
+                return list(r), [], []
+            self.now = self.now + (timeout or 0) + 1
+            return [], [], []
         # 0 = nothing arrives before the timeout; k = reply k-1 arrives
+        may_idle = (n == 0 or self.delays is None or self.delays > 0)
         if n and not self.reorder:
-            k = self.ctx.choose(2)
-        else:
+            k = self.ctx.choose(2) if may_idle else 1
+        elif may_idle:
             k = self.ctx.choose(n + 1)
+        else:
+            k = 1 + self.ctx.choose(n)
+        if k == 0 and n and self.delays is not None:
+            self.delays -= 1
         t = timeout if timeout is not None else 0
+        if not self.timed:
+            if k == 0:
+                self.now = self.now + t + 1
+                return [], [], []
+            self.ready = [self.in_flight.pop(k - 1)]
+            return list(r), [], []
         if k == 0:
             d = self.ctx.real("idle")
             self.ctx.assume(d > t)
@@ -124,7 +153,7 @@ class World(object):
 
     def recv(self, n):
         if not self.ready:
-            if (self.multi_recv and self.in_flight and
+            if (self.multi_recv and self.in_flight and not self.prompt and
                     self.received and self.ctx.choose(2)):
                 k = (self.ctx.choose(len(self.in_flight))
                      if self.reorder else 0)
